@@ -3,8 +3,8 @@
 use crate::{guarded, pi64, pu64, pusize, Case};
 use std::cell::{Cell, RefCell};
 
-type N = Node<u64, i64, u64>;
-type Ed = Edge<u64, i64, u64>;
+type N = Node<Kt, i64, Et>;
+type Ed = Edge<Kt, i64, Et>;
 
 fn fmt_edge(e: &Ed) -> String {
     format!("({}>{}:{})", e.source().key(), e.target().key(), e.value())
@@ -34,7 +34,7 @@ enum Pred {
 
 impl Pred {
     fn eval(&self, e: &Ed) -> bool {
-        let (s, t, v) = (*e.source().key(), *e.target().key(), *e.value());
+        let (s, t, v) = (e.source().key().n(), e.target().key().n(), e.value().n());
         match self {
             Pred::All => true,
             Pred::Salt(a, m) => (3 * s + 5 * t + 7 * v + a) % m != 0,
@@ -52,7 +52,7 @@ enum Meth {
 
 struct World {
     nodes: RefCell<Vec<N>>,
-    graphs: RefCell<Vec<Graph<u64, i64, u64>>>,
+    graphs: RefCell<Vec<Graph<Kt, i64, Et>>>,
     /// thread programs of the conc channel: per thread a list of calls
     threads: RefCell<Vec<Vec<Vec<String>>>>,
     /// pending script: (invocation index, step tokens), consumed by the next loop/search
@@ -92,7 +92,7 @@ fn handle_via(w: &World, i: usize, how: &str) -> N {
         }
         // container lookup
         "g" => {
-            let mut g: Graph<u64, i64, u64> = Graph::new();
+            let mut g: Graph<Kt, i64, Et> = Graph::new();
             g.insert(base.clone());
             g.get(base.key()).unwrap()
         }
@@ -123,19 +123,19 @@ fn exec_node_step(w: &World, st: &[String]) -> Option<String> {
     };
     Some(match st[0].as_str() {
         "new" => {
-            let n = Node::new(pu64(&st[1]), pi64(&st[2]));
+            let n = Node::new(Kt::of(pu64(&st[1])), pi64(&st[2]));
             w.nodes.borrow_mut().push(n);
             "ok".to_string()
         }
         "con" => guarded(|| {
-            node(&st[1]).connect(&node(&st[2]), pu64(&st[3]));
+            node(&st[1]).connect(&node(&st[2]), Et::of(pu64(&st[3])));
             "ok".to_string()
         }),
-        "try" => guarded(|| match node(&st[1]).try_connect(&node(&st[2]), pu64(&st[3])) {
+        "try" => guarded(|| match node(&st[1]).try_connect(&node(&st[2]), Et::of(pu64(&st[3]))) {
             Ok(()) => "ok".to_string(),
             Err(e) => err_str(e),
         }),
-        "dis" => guarded(|| match node(&st[1]).disconnect(&pu64(&st[2])) {
+        "dis" => guarded(|| match node(&st[1]).disconnect(&Kt::of(pu64(&st[2]))) {
             Ok(e) => format!("ok {}", e),
             Err(e) => err_str(e),
         }),
@@ -143,7 +143,7 @@ fn exec_node_step(w: &World, st: &[String]) -> Option<String> {
             node(&st[1]).isolate();
             "ok".to_string()
         }),
-        "qry" => guarded(|| qry(&node(&st[1]), pu64(&st[2]))),
+        "qry" => guarded(|| qry(&node(&st[1]), Kt::of(pu64(&st[2])))),
         "snap" => guarded(|| snap(&w.nodes.borrow().clone())),
         _ => return None,
     })
@@ -286,7 +286,7 @@ macro_rules! with_method {
 // ---------------------------------------------------------------------------
 // container / scc / dot / serde channel
 // ---------------------------------------------------------------------------
-type Gr = Graph<u64, i64, u64>;
+type Gr = Graph<Kt, i64, Et>;
 
 fn order_str(g: &Gr) -> String {
     let mut s = String::from("ord [");
@@ -478,29 +478,29 @@ fn exec_graph_step(w: &World, st: &[String]) -> Option<String> {
             let n = w.nodes.borrow()[pusize(&st[2])].clone();
             format!("ok {}", w.graphs.borrow_mut()[gi(&st[1])].insert(n) as u8)
         }),
-        "gget" => guarded(|| format!("get {}", okey(w.graphs.borrow()[gi(&st[1])].get(&pu64(&st[2]))))),
+        "gget" => guarded(|| format!("get {}", okey(w.graphs.borrow()[gi(&st[1])].get(&Kt::of(pu64(&st[2])))))),
         "gcon" => guarded(|| {
             let gs = w.graphs.borrow();
             let g = &gs[gi(&st[1])];
-            let a = g.get(&pu64(&st[2])).unwrap();
-            let b = g.get(&pu64(&st[3])).unwrap();
-            a.connect(&b, pu64(&st[4]));
+            let a = g.get(&Kt::of(pu64(&st[2]))).unwrap();
+            let b = g.get(&Kt::of(pu64(&st[3]))).unwrap();
+            a.connect(&b, Et::of(pu64(&st[4])));
             "ok".to_string()
         }),
         "gidx" => guarded(|| {
             let gs = w.graphs.borrow();
-            let k = pu64(&st[2]);
+            let k = Kt::of(pu64(&st[2]));
             let by_ref = idx_ref!(gs[gi(&st[1])], k);
             let n = &gs[gi(&st[1])][k];
             // Deref: a node dereferences to its value
-            format!("idx {}{}{}", n.key(), if by_ref != *n.key() { " IDXREF!" } else { "" }, if **n != *n.value() { " DEREF!" } else { "" })
+            format!("idx {}{}{}", n.key(), if by_ref != n.key().n() { " IDXREF!" } else { "" }, if **n != *n.value() { " DEREF!" } else { "" })
         }),
-        "ghas" => guarded(|| format!("has {}", w.graphs.borrow()[gi(&st[1])].contains(&pu64(&st[2])) as u8)),
+        "ghas" => guarded(|| format!("has {}", w.graphs.borrow()[gi(&st[1])].contains(&Kt::of(pu64(&st[2]))) as u8)),
         "glen" => guarded(|| {
             let gs = w.graphs.borrow();
             format!("len {} emp {}", gs[gi(&st[1])].len(), gs[gi(&st[1])].is_empty() as u8)
         }),
-        "grem" => guarded(|| match w.graphs.borrow_mut()[gi(&st[1])].remove(&pu64(&st[2])) {
+        "grem" => guarded(|| match w.graphs.borrow_mut()[gi(&st[1])].remove(&Kt::of(pu64(&st[2]))) {
             Some(n) => format!("some {}", n.key()),
             None => "none".to_string(),
         }),
@@ -578,7 +578,7 @@ fn exec_graph_step(w: &World, st: &[String]) -> Option<String> {
 
 fn graph_snap(g: &Gr) -> String {
     let mut v = g.to_vec();
-    v.sort_by_key(|n| *n.key());
+    v.sort_by_key(|n| n.key().n());
     let mut s = String::new();
     for n in &v {
         s.push_str(&format!("[{} {} adj", n.key(), n.value()));
@@ -709,7 +709,7 @@ fn snap(nodes: &[N]) -> String {
     s
 }
 
-fn qry(n: &N, k: u64) -> String {
+fn qry(n: &N, k: Kt) -> String {
     format!("q conn={} fa={}", n.is_connected(&k) as u8, okey(n.find_adjacent(&k)))
 }
 
@@ -785,14 +785,14 @@ fn run_search(w: &World, st: &[String]) -> String {
         Some(i) => (&st[..i], Some(&st[i + 1..])),
         None => (st, None),
     };
-    let retarget_key: u64 = match then_op {
-        Some(op) if op[0] == "retarget" => pu64(&op[1]),
-        _ => 0,
+    let retarget_key: Kt = match then_op {
+        Some(op) if op[0] == "retarget" => Kt::of(pu64(&op[1])),
+        _ => Kt::of(0),
     };
     let algo = st[1].as_str();
     let what = st[2].as_str();
     let root = w.nodes.borrow()[pusize(&st[3])].clone();
-    let target: Option<u64> = if st[5] == "-" { None } else { Some(pu64(&st[5])) };
+    let target: Option<Kt> = if st[5] == "-" { None } else { Some(Kt::of(pu64(&st[5]))) };
     let (meth, pred) = parse_method(st, 6);
     let cbs = CbState::new(w, pred);
     let mut ff = |e: &Ed| cbs.on_edge(e);
@@ -840,7 +840,7 @@ fn run_search(w: &World, st: &[String]) -> String {
     }
     // the builder calls are made in an order chosen per step (a pure function of the step text)
     let variant: u32 = st.iter().map(|t| t.bytes().map(|b| b as u32).sum::<u32>()).sum::<u32>() % 4;
-    let wrong_key: u64 = 999_983;
+    let wrong_key: Kt = Kt::of(999_983);
     macro_rules! cfg3 {
         ($b:expr) => {{
             let mut b = $b;
